@@ -1,6 +1,7 @@
 import Proofs.DkgNonzero
 import Proofs.DkgBlame
 import Proofs.DkgJoint
+import Proofs.DkgHonest
 
 /-! Agreement inside Joint-Feldman, instance by instance.
 
@@ -556,5 +557,293 @@ theorem jres_jpub (size threshold : Nat) (L : List (St O)) :
         · rw [if_neg hi, if_neg hi]
           show _ = if _ = 0 then Res.failure else _
           rw [if_neg hx]
+
+
+/-! ### the instance of an honest dealer: the receiver's view and the dealer's own view -/
+
+/-- **what a receiver holds of an honest dealer's instance at `End`**: under the hypotheses of
+    `honest_dealer_keys` (Proofs/DkgHonest) the dealer is qualified and the stored vector is the dealer's -/
+theorem honest_dealer_view (H : Honest O) (K : Finset Nat) (s0 : St O) (h0 : HD H s0)
+    (hst0 : s0.sharesTimeout = false) (hct0 : s0.complaintsTimeout = false) (hK : K.card ≤ s0.threshold)
+    (hk0 : keysIn K s0) (r1 r2 r3 : List Dl)
+    (ok1 : RoundOK' H K s0 false r1) (ok2 : RoundOK' H K s0 false r2) (ok3 : RoundOK' H K s0 true r3)
+    (hvec : ∃ e ∈ r1, ∃ d, ∀ t, CfgCT s0 false t → classify t e = .vec d)
+    (hshare : ∃ e ∈ r1, ∃ d, ∀ t, CfgCT s0 false t → classify t e = .share d)
+    (hans : ∀ k ∈ K, ∃ a, (∃ e ∈ r1, ∀ t, CfgCT s0 false t → classify t e = .ans k (some a)) ∨
+      (∃ e ∈ r2, ∀ t, CfgCT s0 false t → classify t e = .ans k (some a)) ∨
+      (∃ e ∈ r3, ∀ t, CfgCT s0 true t → classify t e = .ans k (some a))) :
+    pview (final s0 r1 r2 r3) = (false, some H.v0) := by
+  have c0 : CfgCT s0 false s0 := ⟨rfl, rfl, rfl, rfl, hct0⟩
+  obtain ⟨h1, m1, v1, x1, a1⟩ := hd_round K r1 s0 h0 (roundOK_of' ok1 s0 c0)
+  obtain ⟨ev, hev, dv, hcv⟩ := hvec
+  obtain ⟨es, hes, ds, hcs⟩ := hshare
+  have hv1 := v1 hst0 ev hev dv (hcv s0 c0)
+  have hxr1 := x1 hst0 es hes ds (hcs s0 c0)
+  have hst1 : (runList s0 r1).sharesTimeout = false := by rw [m1.cfg.2.2.2.2.1]; exact hst0
+  have hct1 : (runList s0 r1).complaintsTimeout = false := by rw [m1.cfg.2.2.2.2.2.1]; exact hct0
+  have ht1 : tstep (runList s0 r1) = stFlag (runList s0 r1) := by
+    rw [tstep_eq]
+    simp [h1.ndq, hst1, hv1, hxr1]
+  have i1 := inv_tstep _ h1.inv
+  rw [ht1] at i1
+  have g1 : HD H (stFlag (runList s0 r1)) :=
+    hd_congr_fields h1 _ i1 rfl rfl h1.ndq h1.vec h1.novec h1.share
+  have c1 : CfgCT s0 false (stFlag (runList s0 r1)) :=
+    ⟨m1.cfg.1, m1.cfg.2.1, m1.cfg.2.2.1, m1.cfg.2.2.2.1, hct1⟩
+  obtain ⟨h2, m2, _, _, a2⟩ := hd_round K r2 _ g1 (roundOK_of' ok2 _ c1)
+  have hst2 : (runList (stFlag (runList s0 r1)) r2).sharesTimeout = true := by rw [m2.cfg.2.2.2.2.1]; rfl
+  have hct2 : (runList (stFlag (runList s0 r1)) r2).complaintsTimeout = false := by
+    rw [m2.cfg.2.2.2.2.2.1]; exact hct1
+  have hkeys2 : keysIn K (runList (stFlag (runList s0 r1)) r2) :=
+    m2.keys (fun k c hf => m1.keys hk0 k c hf)
+  have hthr2 : (runList (stFlag (runList s0 r1)) r2).threshold = s0.threshold := by
+    rw [m2.cfg.2.2.2.1]; exact m1.cfg.2.2.2.1
+  have ht2 : tstep (runList (stFlag (runList s0 r1)) r2) = ctFlag (runList (stFlag (runList s0 r1)) r2) := by
+    rw [tstep_eq]
+    have hlen := length_le_card K _ h2.inv.nodup hkeys2
+    have : ¬ (runList (stFlag (runList s0 r1)) r2).complaints.length > (runList (stFlag (runList s0 r1)) r2).threshold := by
+      rw [hthr2]; omega
+    simp [h2.ndq, hst2, this]
+  have i2 := inv_tstep _ h2.inv
+  rw [ht2] at i2
+  have g2 : HD H (ctFlag (runList (stFlag (runList s0 r1)) r2)) :=
+    hd_congr_fields h2 _ i2 rfl rfl h2.ndq h2.vec h2.novec h2.share
+  have c2 : CfgCT s0 true (ctFlag (runList (stFlag (runList s0 r1)) r2)) :=
+    ⟨m2.cfg.1.trans m1.cfg.1, m2.cfg.2.1.trans m1.cfg.2.1, m2.cfg.2.2.1.trans m1.cfg.2.2.1,
+      m2.cfg.2.2.2.1.trans m1.cfg.2.2.2.1, rfl⟩
+  obtain ⟨h3, m3, _, _, a3⟩ := hd_round K r3 _ g2 (roundOK_of' ok3 _ c2)
+  unfold final
+  rw [ht1, ht2, pview_eq]
+  have hvF : (runList (ctFlag (runList (stFlag (runList s0 r1)) r2)) r3).vAReceived = true :=
+    m3.vec (m2.vec hv1)
+  have hkeysF : keysIn K (runList (ctFlag (runList (stFlag (runList s0 r1)) r2)) r3) := m3.keys hkeys2
+  have hansF : ∀ k ∈ K, answered (runList (ctFlag (runList (stFlag (runList s0 r1)) r2)) r3) k := by
+    intro k hk
+    obtain ⟨a, h | h | h⟩ := hans k hk
+    · obtain ⟨e, he, hc⟩ := h
+      exact m3.ans k (m2.ans k (a1 e he k a (hc s0 c0)))
+    · obtain ⟨e, he, hc⟩ := h
+      exact m3.ans k (a2 e he k a (hc _ c1))
+    · obtain ⟨e, he, hc⟩ := h
+      exact a3 e he k a (hc _ c2)
+  have hnone : unanswered (runList (ctFlag (runList (stFlag (runList s0 r1)) r2)) r3) = false := by
+    unfold unanswered
+    rw [List.any_eq_false]
+    intro kc hkc
+    have hf : (runList (ctFlag (runList (stFlag (runList s0 r1)) r2)) r3).find kc.1 = some kc.2 := by
+      unfold St.find
+      rw [find_of_mem _ h3.inv.nodup kc.1 kc.2 hkc]; rfl
+    obtain ⟨c, hc, hca⟩ := hansF kc.1 (hkeysF kc.1 kc.2 hf)
+    rw [hf] at hc
+    have := Option.some.inj hc
+    rw [this, hca]
+    simp
+  rw [h3.ndq, hnone, h3.vec hvF]
+  simp
+
+
+/-- the dealer's own instance: it holds its vector and its share, has answered every complaint, and only
+    participants of `K` have complained -/
+structure DS (K : Finset Nat) (v : O.Vec) (s : St O) : Prop where
+  isDealer : s.me = s.dealer
+  ndq : s.disqualified = false
+  vA : s.vA = some v
+  vAR : s.vAReceived = true
+  xR : s.xReceived = true
+  answered : ∀ kc ∈ s.complaints, kc.2.answerReceived = true
+  keys : keysIn K s
+  nodup : KeysNodup s
+
+theorem ds_congr {K : Finset Nat} {v : O.Vec} {s t : St O} (h : DS K v s) (h1 : t.me = s.me) (h2 : t.dealer = s.dealer)
+    (h3 : t.disqualified = s.disqualified) (h4 : t.vA = s.vA) (h5 : t.vAReceived = s.vAReceived)
+    (h6 : t.xReceived = s.xReceived) (h7 : t.complaints = s.complaints) : DS K v t := by
+  refine ⟨by rw [h1, h2]; exact h.isDealer, by rw [h3]; exact h.ndq, by rw [h4]; exact h.vA, by rw [h5]; exact h.vAR,
+    by rw [h6]; exact h.xR, by rw [h7]; exact h.answered, ?_, by unfold KeysNodup; rw [h7]; exact h.nodup⟩
+  intro k c hf
+  apply h.keys k c
+  unfold St.find at hf ⊢; rw [← h7]; exact hf
+
+theorem ds_setC {K : Finset Nat} {v : O.Vec} {s : St O} (h : DS K v s) (k : Nat) (c : Complaint) (hk : k ∈ K)
+    (hc : c.answerReceived = true) : DS K v (s.setC k c) := by
+  refine ⟨h.isDealer, h.ndq, h.vA, h.vAR, h.xR, ?_, ?_, keys_setC s k c h.nodup⟩
+  · intro kc hkc
+    change kc ∈ (k, c) :: s.complaints.filter _ at hkc
+    rcases List.mem_cons.1 hkc with e | e
+    · rw [e]; exact hc
+    · exact h.answered kc (List.mem_filter.1 e).1
+  · intro j c' hf
+    rw [find_setC] at hf
+    split at hf
+    · rename_i hj; rw [hj]; exact hk
+    · exact h.keys j c' hf
+
+/-- what a complaint does at the dealer's own instance: a new complainer is registered and answered at once -/
+theorem rc_dealer (s : St O) (hmd : s.me = s.dealer) (o : Nat) (hod : o ≠ s.dealer) (d : Bytes) :
+    (FvssQ.receiveComplaint s o d).1 =
+      if s.complaintsTimeout = true then s
+      else if d.length ≠ 1 then s
+      else if (d.headD 0).toNat ≥ s.size then s
+      else if (d.headD 0).toNat ≠ s.dealer then s
+      else match s.find o with
+        | none => s.setC o { received := true, answerReceived := true }
+        | some c => if c.received = true then s else s.setC o (recv c) := by
+  unfold FvssQ.receiveComplaint
+  by_cases h1 : s.complaintsTimeout = true
+  · rw [if_pos h1, if_pos h1]
+  · rw [if_neg h1, if_neg h1]
+    by_cases h2 : d.length ≠ 1
+    · rw [if_pos h2, if_pos h2, if_neg hod]
+    · rw [if_neg h2, if_neg h2]
+      simp only []
+      by_cases h3 : (d.headD 0).toNat ≥ s.size
+      · rw [if_pos h3, if_pos h3, if_neg hod]
+      · rw [if_neg h3, if_neg h3, if_neg hod]
+        by_cases h4 : (d.headD 0).toNat ≠ s.dealer
+        · rw [if_pos h4, if_pos h4]
+        · rw [if_neg h4, if_neg h4]
+          cases hf : s.find o with
+          | none =>
+            simp only []
+            have hmd' : (s.setC o { received := true, answerReceived := false }).me =
+                (s.setC o { received := true, answerReceived := false }).dealer := hmd
+            rw [if_pos hmd']
+            unfold FvssQ.buildAnswer
+            rw [find_setC_same]
+            simp only []
+            rw [setC_setC]
+          | some c =>
+            simp only []
+            by_cases h5 : c.received = true
+            · rw [if_pos h5, if_pos h5]
+            · rw [if_neg h5, if_neg h5]
+              have : ¬ ((s.setC o { c with received := true }).vAReceived = true ∧ c.answerReceived = true ∧
+                  (s.setC o { c with received := true }).me ≠ (s.setC o { c with received := true }).dealer) :=
+                fun hh => hh.2.2 hmd
+              rw [if_neg this]
+              rfl
+
+/-- **every delivery at the dealer's own instance keeps it qualified with every complaint answered**, provided
+    complaints come from participants of `K` only -/
+theorem ds_step {K : Finset Nat} {v : O.Vec} {s : St O} (h : DS K v s) (e : Dl)
+    (hK : ∀ o m, e = .bcast o m → m.headD 0 = tagComplaint → o ∈ K) :
+    DS K v (step s e) ∧ (step s e).threshold = s.threshold := by
+  have hmd := h.isDealer
+  cases e with
+  | priv o m =>
+    show DS K v (FvssQ.privBody s o m).1 ∧ (FvssQ.privBody s o m).1.threshold = s.threshold
+    unfold FvssQ.privBody
+    by_cases ho : s.me = o
+    · rw [if_pos ho]; exact ⟨h, rfl⟩
+    · rw [if_neg ho]
+      rw [if_neg (by simp [h.ndq])]
+      unfold FvssQ.receiveShare
+      rw [if_pos (fun e => ho (by rw [hmd, e]))]
+      exact ⟨h, rfl⟩
+  | bcast o m =>
+    have hKo := hK o m rfl
+    show DS K v (FvssQ.bcastBody s o m).1 ∧ (FvssQ.bcastBody s o m).1.threshold = s.threshold
+    unfold FvssQ.bcastBody
+    by_cases ho : s.me = o
+    · rw [if_pos ho]; exact ⟨h, rfl⟩
+    · rw [if_neg ho]
+      have hod : o ≠ s.dealer := fun e => ho (by rw [hmd, e])
+      rw [if_neg (by simp [h.ndq])]
+      simp only []
+      by_cases h0 : m.length = 0
+      · rw [if_pos h0, if_neg hod]; exact ⟨h, rfl⟩
+      · rw [if_neg h0]
+        by_cases h1 : m.headD 0 = tagVerifVec
+        · rw [if_pos h1]
+          unfold FvssQ.receiveVerifVector; rw [if_pos hod]; exact ⟨h, rfl⟩
+        · rw [if_neg h1]
+          by_cases h2 : m.headD 0 = tagComplaint
+          · rw [if_pos h2, rc_dealer s hmd o hod]
+            have hoK : o ∈ K := hKo h2
+            split
+            · exact ⟨h, rfl⟩
+            · split
+              · exact ⟨h, rfl⟩
+              · split
+                · exact ⟨h, rfl⟩
+                · split
+                  · exact ⟨h, rfl⟩
+                  · cases hf : s.find o with
+                    | none => exact ⟨ds_setC h o _ hoK rfl, rfl⟩
+                    | some c =>
+                      simp only []
+                      have hca := h.answered (o, c) (mem_of_find s o c hf)
+                      split
+                      · exact ⟨h, rfl⟩
+                      · exact ⟨ds_setC h o _ hoK hca, rfl⟩
+          · rw [if_neg h2]
+            by_cases h3 : m.headD 0 = tagAnswer
+            · rw [if_pos h3]
+              unfold FvssQ.receiveComplaintAnswer; rw [if_pos hod]; exact ⟨h, rfl⟩
+            · rw [if_neg h3, if_neg hod]; exact ⟨h, rfl⟩
+
+theorem ds_runList {K : Finset Nat} {v : O.Vec} (l : List Dl) (s : St O) (h : DS K v s)
+    (hK : ∀ o m, Dl.bcast o m ∈ l → m.headD 0 = tagComplaint → o ∈ K) :
+    DS K v (runList s l) ∧ (runList s l).threshold = s.threshold := by
+  induction l generalizing s with
+  | nil => exact ⟨h, rfl⟩
+  | cons e t ih =>
+    have st := ds_step h e (fun o m he ht => hK o m (by rw [← he]; exact List.mem_cons_self) ht)
+    have r := ih (step s e) st.1 (fun o m hm ht => hK o m (List.mem_cons_of_mem _ hm) ht)
+    exact ⟨r.1, r.2.trans st.2⟩
+
+theorem ds_tstep {K : Finset Nat} {v : O.Vec} {s : St O} (h : DS K v s) (hK : K.card ≤ s.threshold) :
+    DS K v (tstep s) ∧ (tstep s).threshold = s.threshold := by
+  rw [tstep_eq]
+  have hlen := length_le_card K s h.nodup h.keys
+  simp only [h.ndq, Bool.false_eq_true, if_false, h.vAR, h.xR, Bool.not_true]
+  split
+  · exact ⟨ds_congr h rfl rfl rfl rfl rfl rfl rfl, rfl⟩
+  · rw [if_neg (by omega)]
+    exact ⟨ds_congr h rfl rfl rfl rfl rfl rfl rfl, rfl⟩
+
+/-- **the dealer's own view of its instance at `End`**: qualified, with its own vector — as long as at most `t`
+    participants (the set `K`) ever complain against it -/
+theorem dealer_side_view (K : Finset Nat) (v : O.Vec) (s0 : St O) (h0 : DS K v s0) (hK : K.card ≤ s0.threshold)
+    (r1 r2 r3 : List Dl)
+    (k1 : ∀ o m, Dl.bcast o m ∈ r1 → m.headD 0 = tagComplaint → o ∈ K)
+    (k2 : ∀ o m, Dl.bcast o m ∈ r2 → m.headD 0 = tagComplaint → o ∈ K)
+    (k3 : ∀ o m, Dl.bcast o m ∈ r3 → m.headD 0 = tagComplaint → o ∈ K) :
+    pview (final s0 r1 r2 r3) = (false, some v) := by
+  have d1 := ds_runList r1 s0 h0 k1
+  have t1 := ds_tstep d1.1 (by rw [d1.2]; exact hK)
+  have d2 := ds_runList r2 _ t1.1 k2
+  have t2 := ds_tstep d2.1 (by rw [d2.2, t1.2, d1.2]; exact hK)
+  have d3 := ds_runList r3 _ t2.1 k3
+  unfold final
+  rw [pview_eq]
+  have hun : unanswered (runList (tstep (runList (tstep (runList s0 r1)) r2)) r3) = false := by
+    unfold unanswered
+    rw [List.any_eq_false]
+    intro kc hkc
+    rw [d3.1.answered kc hkc]; simp
+  rw [d3.1.ndq, hun, d3.1.vA]
+  simp
+
+
+/-- the dealer's own instance right after a successful `Start` satisfies `DS` (for every `K`) -/
+theorem ds_after_start (K : Finset Nat) (size threshold me : Nat) (seed : Bytes) (s' : St O) (outs : List Out)
+    (h : Dkg.start ({ size := size, threshold := threshold, me := me, dealer := me } : St O) seed = (s', outs, .ok)) :
+    ∃ a, DS K (O.vecOfPoly size a) s' := by
+  unfold Dkg.start Dkg.startBody Dkg.generateShares at h
+  simp only [Bool.false_eq_true, if_false, if_true] at h
+  cases hg : O.genPoly seed threshold with
+  | none => rw [hg] at h; simp at h
+  | some a =>
+    rw [hg] at h
+    simp only [] at h
+    cases hl : shareLoop O a me size 1 [] 0 with
+    | none => rw [hl] at h; simp at h
+    | some r =>
+      obtain ⟨o, x⟩ := r
+      rw [hl] at h
+      simp only [Prod.mk.injEq, and_true] at h
+      refine ⟨a, ?_⟩
+      rw [← h.1]
+      exact ⟨rfl, rfl, rfl, rfl, rfl, fun kc hkc => (by cases hkc), fun k c hc => (by cases hc), List.nodup_nil⟩
 
 end Proofs.DkgAgree
